@@ -450,6 +450,8 @@ func (f *frame) execSlice(x *ssa.Slice, in string, st *State) {
 			vc.obligeIn(f, "bounds", anchor, in, And(App("<=", "0", lo), App("<=", lo, hi), App("<=", hi, capT)), x.Pos(), "slice bounds")
 		}
 		f.name(x, App("mk-slice", App("sl.base", xv.T), App("+", App("sl.off", xv.T), lo), App("-", hi, lo), App("-", mx, lo)))
+		// instantiation bridge (consequence of the definition of at_): s[lo:hi][i] is s[lo+i]
+		vc.assume(in, fmt.Sprintf("(forall ((i! Int)) (! (= (at_ %s i!) (at_ %s (+ i! %s))) :pattern ((at_ %s i!))))", f.vals[x].T, xv.T, lo, f.vals[x].T))
 	case *types.Basic: // string
 		hi := App("str.len_", xv.T)
 		if x.High != nil {
